@@ -1,5 +1,34 @@
+(* Protocol part of C02 / C04: theorems about the LTS of Model/CopyImpl.v (syncutil.Go, LimitedRegion,
+   status.Tracker, copyGraph.fn, the outer fan-out of ExtendedCopyGraph).  `Reachable succ K ext roots s`:
+   s is reachable from `init K ext roots` by any sequence of labels (any interleaving, any fault
+   choice, cancellation of the caller's context at any point). *)
 From Coq Require Import List Arith Bool.
 From Oras Require Import Model.CopyImpl Proofs.CopyImpl.
-Theorem C04_init_free : forall K ext roots, free (init K ext roots) = K.
-Proof. exact init_free. Qed.
-Print Assumptions C04_init_free.
+Import ListNotations.
+
+Theorem C04_permits_conserved : forall succ K ext roots s, Reachable succ K ext roots s ->
+  free s + holders s = K /\ holders s <= K /\
+  (forall t, is_fin (t_pc (tasks s t)) = true -> t_holds (tasks s t) = false).
+Proof. exact permits_conserved. Qed.
+Print Assumptions C04_permits_conserved.
+
+Theorem C04_end_idempotent : forall succ s t s', step succ s (LEnd t) = Some s' ->
+  t_holds (tasks s' t) = false /\ free s' = (if t_holds (tasks s t) then S (free s) else free s).
+Proof. exact end_idempotent. Qed.
+Print Assumptions C04_end_idempotent.
+
+Theorem C04_finish_releases_once : forall s t e m,
+  free (finish s t e m) = (if t_holds (tasks s t) then S (free s) else free s) /\
+  t_holds (tasks (finish s t e m) t) = false.
+Proof. exact finish_releases_once. Qed.
+Print Assumptions C04_finish_releases_once.
+
+Theorem C04_start_idempotent : forall succ s t s', step succ s (LStart t) = Some s' ->
+  t_holds (tasks s t) = true -> t_kind (tasks s t) = KFn -> free s' = free s /\ t_holds (tasks s' t) = true.
+Proof. exact start_idempotent. Qed.
+Print Assumptions C04_start_idempotent.
+
+Theorem C04_inflight_bounded : forall succ K ext roots s, Reachable succ K ext roots s ->
+  inflight s <= holders s /\ inflight s <= K.
+Proof. exact inflight_bounded. Qed.
+Print Assumptions C04_inflight_bounded.
